@@ -150,7 +150,7 @@ impl<'t, 'a> Gen<'t, 'a> {
             let w: [usize; 8] = if self.o.vars_heavy { [8, 3, 6, 1, 1, 1, 2, 2] } else { [3, 4, 8, 1, 1, 1, 1, 1] };
             match self.t.weighted(&w) {
                 0 => {
-                    let n = self.var_name();
+                    let n = if self.t.chance(6) { "builddir".to_string() } else { self.var_name() };
                     let val = self.value(false);
                     v.push(Stmt::Bind(n, val));
                 }
